@@ -188,3 +188,12 @@ Proof.
   split; [exact vmdk_post_ok|]. split; [exact vmdk_rc_ok|].
   split; cbn; repeat constructor; cbn; try tauto; try discriminate; intuition discriminate.
 Qed.
+
+(* region_complete callbacks: Python iterates a SET of newly complete regions (order unspecified), the
+   model uses dictionary order.  The order is immaterial: only qcow2 (one region in its life) and vmdk
+   (only the name 'descriptor' does anything) have a non-trivial callback. *)
+Lemma vmdk_callback_only_descriptor n (s : ist vx) : n <> R_descriptor -> vmdk_rcomplete n s = (s, None).
+Proof. intros H. destruct n; try reflexivity. contradiction. Qed.
+Lemma unit_formats_no_callback (F : fmt unit) n s :
+  In F [raw_fmt; qed_fmt; vhd_fmt; vdi_fmt; iso_fmt; gpt_fmt; luks_fmt; vhdx_fmt] -> f_rcomplete F n s = (s, None).
+Proof. cbn [In]. intros H. repeat (destruct H as [<-|H]; [reflexivity|]). contradiction. Qed.
